@@ -169,7 +169,7 @@ func c12Version(tag string, native bool, extraHop bool) *ref.Spec {
 // c12Derive builds version B the way an update is applied to a running system: a copy of
 // the live version, edited (sources, guards, targets, one more node) and compiled.  like is
 // an independently built B that says what the result has to be.
-func c12Derive(live, like *core.Spec) (*core.Spec, error) {
+func c12Derive(live, like *core.Spec, note string) (*core.Spec, error) {
 	d := live.Copy("B")
 	names := make([]string, 0, len(like.Nodes))
 	for name := range like.Nodes {
@@ -186,6 +186,10 @@ func c12Derive(live, like *core.Spec) (*core.Spec, error) {
 		}
 		if nb.ActionSource != nil {
 			nd.ActionSource = nb.ActionSource.Copy()
+			if src, ok := nd.ActionSource.Source.(string); ok && note != "" {
+				// (a source text nobody has compiled before)
+				nd.ActionSource.Source = src + "\n// " + note
+			}
 			nd.Action = nil
 		}
 		if nd.Branches == nil || nb.Branches == nil {
@@ -263,7 +267,7 @@ func runC12Swap(c *sim.Ctx, t *testing.T) {
 			// compiling is something several goroutines do at once with one shared interpreter
 			s.Go("deriver2", func(tk *sim.Task) {
 				sim.Yield("h#derive2")
-				c12Derive(va, vb)
+				c12Derive(va, vb, fmt.Sprintf("prepared by the second thread, run %d", c.Seed%100003))
 			})
 		}
 		s.Go("swapper", func(tk *sim.Task) {
@@ -271,7 +275,7 @@ func runC12Swap(c *sim.Ctx, t *testing.T) {
 			for k := 0; k < nswaps; k++ {
 				sim.Yield("h#swap")
 				if k == 0 && derive {
-					if d, err := c12Derive(va, vb); err == nil {
+					if d, err := c12Derive(va, vb, fmt.Sprintf("derived in run %d", c.Seed%100003)); err == nil {
 						next = d
 					}
 				}
